@@ -244,26 +244,9 @@ def parseMOp (s : String) : Option EngineT.MOp :=
   | ["L", b] => (parseNat b).map EngineT.MOp.useList
   | ["W", k] => (parseNat k).map EngineT.MOp.switch
   | ["C"] => some EngineT.MOp.compute
+  -- the CALLER assigns `node.width = w` to the node objects of the b-th list (in creation order) between engine operations
+  | ["R", b, ws] => do some (EngineT.MOp.setWidths (← parseNat b) (← parseList "," parseRat ws))
   | _ => none
-
-/-- a line of an `mhist` history: an operation of `EngineT.MOp`, or the CALLER assigning new widths to the node objects of the b-th list
-(`node.width = w`, in the order the list was created) — an action on the store between engine operations; every later `compute` is
-`computeT` on the store as it is then (`C06.computeT_pure` holds for every store in which the engine's nodes are labels, whatever their widths) -/
-inductive MLine where
-  | op (o : EngineT.MOp)
-  | rewidth (b : Nat) (ws : List Rat)
-
-def parseMLine (s : String) : Option MLine :=
-  match s.splitOn "~" with
-  | ["R", b, ws] => do some (.rewidth (← parseNat b) (← parseList "," parseRat ws))
-  | _ => (parseMOp s).map MLine.op
-
-def mlineStep (w : EngineT.MWorld) : MLine → EngineT.MWorld
-  | .op o => w.step o
-  | .rewidth b ws =>
-    match w.created[b]? with
-    | some ids => { w with store := (ids.zip ws).foldl (fun s p => EngineT.set s p.1 { EngineT.get s p.1 with width := p.2 }) w.store }
-    | none => w
 
 /-- `mhist|ops|k>obs#k>obs#…` — an interleaving of operations on SEVERAL real `Force` objects alive at the same time that share the caller's
 list objects and the `Node` objects in them, replayed on `EngineT.MWorld`: after EVERY compute, which engine computed and its observation
@@ -271,12 +254,12 @@ must be EQUAL (exact mode) -/
 def mhistCmd (f : List String) : Option String :=
   match f with
   | [ops, obs] => do
-    let ops ← parseList ";" parseMLine ops
+    let ops ← parseList ";" parseMOp ops
     let obs ← (if obs.trimAscii.toString == "" then some [] else (obs.splitOn "#").mapM (fun o =>
       match o.splitOn ">" with
       | [k, l] => do some (← parseNat k, ← parseObsLayers l)
       | _ => none))
-    let w := ops.foldl mlineStep EngineT.MWorld.init
+    let w := EngineT.MWorld.run ops
     let same := w.outs == obs
     let reordered := (w.lists.zip w.created).any (fun p => p.1 != p.2)
     some s!"mhist same={okStr same} computes={w.outs.length} implcomputes={obs.length} nodes={w.store.size} engines={w.engines.length} lists={w.lists.length} reordered={if reordered then 1 else 0}"
